@@ -126,22 +126,32 @@ def run(ctx):
     # `all` admission: max_alloc == full_size
     adm = [prog.bodies[p] for p in prog.with_closures(RA + 'has_resources_for_request')]
     okall, okle = False, False
+    RAM = 'ResourceAmount'
+
+    def _from_call(b_, a_, suffix):
+        l_ = op_local(a_)
+        if l_ is None:
+            return False
+        return any(d_[1] == 'call' and (callee_of(d_[2]) or '').endswith(suffix) for x_ in b_.derived_from(l_, through_mutation=False) for d_ in b_.defs().get(x_, ()))
+
+    def _is_amount(b_, a_):
+        l_ = op_local(a_)
+        return l_ is not None and b_.locals[l_][0].replace('&', '').strip().endswith(RAM)
     for b in adm:
-        for bi, s, op, a, c in binops(b):
-            vs = variants_at(b, AR, bi)
-            if op == 'Eq' and vs and set(vs) == {'All'}:
-                okall = True
-            if op == 'Le' and vs and 'All' not in vs:
-                okle = True
         for bi, t, c in b.calls():
+            if bi not in b.reachable():
+                continue
             dc = callee_decl(t) or ''
             vs = variants_at(b, AR, bi)
-            if dc.endswith('PartialEq::eq') and vs and set(vs) == {'All'}:
+            # whole-value comparisons of ResourceAmount (units AND fractions), not of a projection such as whole units
+            if dc.endswith('PartialEq::eq') and vs and set(vs) == {'All'} and all(_is_amount(b, a) for a in t['args']) and \
+                    any(_from_call(b, a, '::amount_max_alloc') for a in t['args']) and any(_from_call(b, a, '::full_size') for a in t['args']):
                 okall = True
-            if dc.endswith('PartialOrd::le') and vs and 'All' not in vs and len(vs) < 6:
+            if dc.endswith('PartialOrd::le') and vs and 'All' not in vs and len(vs) < 6 and all(_is_amount(b, a) for a in t['args']) and \
+                    _from_call(b, t['args'][1], '::amount_max_alloc') and not _from_call(b, t['args'][0], '::amount_max_alloc'):
                 okle = True
-    ctx.ob('R16.2', 'admission|All requires the full resource', okall, '`all` is admitted only when the maximal allocatable amount equals the full size', adm[0].loc())
-    ctx.ob('R16.2', 'admission|amount <= max_alloc', okle, 'the other policies are admitted when amount <= max allocatable', adm[0].loc())
+    ctx.ob('R16.2', 'admission|All requires the full resource', okall, '`all` is admitted only when the maximal allocatable amount equals the full size as whole ResourceAmount values (units and fractions; a comparison of whole units admits `all` next to a fractional allocation)', adm[0].loc())
+    ctx.ob('R16.2', 'admission|amount <= max_alloc', okle, 'the other policies are admitted when amount <= max allocatable, compared as whole ResourceAmount values', adm[0].loc())
 
     # ---- R16.3
     b = prog.body(RA + 'has_resources_for_request')
